@@ -84,7 +84,7 @@ def main():
     assert sh(f"git -C /repo worktree add {wt2} HEAD").returncode == 0
     try:
         assert apply_patch(wt2, patch).returncode == 0
-        shutil.copytree(f"{VERIF}/lean", f"{wt2}/_lean")
+        shutil.copytree(os.environ.get("VERIF_LEAN_SRC", f"{VERIF}/lean"), f"{wt2}/_lean")
         env = dict(os.environ, VERIF_REPO=wt2, VERIF_LEAN_DIR=f"{wt2}/_lean", VERIF_WORK=f"{wt2}/_work",
                    VERIF_EVIDENCE=f"{wt2}/_evidence")
         for chk in [pid] + extra_checks:
